@@ -10,9 +10,11 @@ class C11(ParserSessionProp):
     replica_rate = {'quick': 0.08, 'thorough': 0.25}
     big_batch_rate = {'quick': 0.05, 'thorough': 0.15}
     rule = ('case = (sentence, call context) response of the real depccg.parsing.run inside a multi-call '
-            'session (shared argument objects; seeded batch = subset/permutation/repetition; processes 1-5; '
-            'max_chunk_size 0-20; SimPool schedule: worker assignment, service times, stalls, reordered '
-            'completion; faults F1 budget, F2 length, F3 no parse, F4 callback raises, F7 malformed input); every eighth run is a "grid" run: 80 '
+            'session (shared argument objects; seeded batch = subset/permutation/repetition; processes 1-5 (1-40 in grid runs); '
+            'max_chunk_size 0-21; SimPool schedule: worker assignment, service times, stalls of 90-600 simulated seconds, '
+            'reordered completion (F5); a share of pooled calls runs in really forked workers or in worker interpreters '
+            'started under another PYTHONHASHSEED (F6); faults F1 budget, F2 length, F3 no parse, F4 callback raises in '
+            'parent or worker, F7 malformed input (7 kinds); every eighth run is a "grid" run: 80 '
             'calls covering one slice of the (batch size 1-64) x (processes 1-40) grid on one-word sentences, 256 consecutive '
             'run indices visit every combination once. '
             'Distinct = digest of (sentence digest, config, context signature, schedule signature); '
